@@ -1,6 +1,7 @@
 \* export (thorough): sequences of three submissions, one repetition each
 CONSTANTS
   ShardLists <- MCThreeShards
+  Deployments <- MCDepClassic
   Instants = {0, 1, 2}
   Scenes = {"submit"}
   ChainKinds = {"x509"}
